@@ -133,7 +133,7 @@ def run(ctx):
         def rep(kind, what):
             common.report(ctx, "c18-syntax:%s" % kind, what, dict(classes=v["t"], source=r.get("src"), spec=dict(line=v["line"], col=v["col"]), real=r))
         if r["obs"] != "error" or r.get("errkind") != "syntax":
-            rep("not-a-syntax-error:" + str(r["obs"]), "text with an invalid character gave %s %s" % (r["obs"], r.get("detail", "")))
+            rep("not-a-syntax-error:" + str(r["obs"]), "text with an invalid character / indentation gave %s %s" % (r["obs"], r.get("detail", "")))
             continue
         if r.get("line") != v["line"]:
             rep("line", "offending character on physical line %d, report says line %s" % (v["line"], r.get("line")))
@@ -145,9 +145,10 @@ def run(ctx):
             idxs = None
             want = None
             # locate quoted subsequence by position: recompute from classes
-            t = v["t"]; px = t.index("X")
+            t = v["t"]; px = t.index("X") if "X" in t else t.index("S")
             a = px
             while a > 0 and t[a - 1] not in ("LF", "CR"): a -= 1
+            while t[a] == "S": a += 1          # an indentation error quotes the line without its indentation
             z = px
             while z + 1 < len(t) and t[z + 1] not in ("LF", "CR"): z += 1
             if t[a:z + 1] == v["quoted"]:
